@@ -32,7 +32,7 @@ from harness.lib import Family, Verdict, deep_eq, drive, jval
 
 TOL = 1e-8          # relative, model tensor and reported numbers
 TOL_SCALE = 1e-6    # cp_als whole-run scale (rounding is amplified by the condition of the sweeps)
-PRINTS = [0, 1, 2, 7]
+PRINTS = [0, 1, 2, 3, 7]
 SCALES = [1e-9, 1e-6, 1e-3, 0.5, 3.0, 1e3, 1e6, 1e9]  # 18 orders of magnitude: absolute thresholds show only far from 1
 
 RULE = ("paired runs of the real drivers on small planted low-rank problems (orders 2..3, 4 in thorough; distinct "
@@ -217,15 +217,21 @@ def rel(a, b):
     a, b = np.asarray(a, dtype=float), np.asarray(b, dtype=float)
     if a.shape != b.shape:
         return float("inf")
+    fa, fb = np.isfinite(a), np.isfinite(b)
+    if not (fa.all() and fb.all()):
+        # degenerate runs (nan / inf entries): the same non-finite pattern and equal finite entries count as equal
+        if not (np.array_equal(fa, fb) and np.array_equal(a[~fa], b[~fb], equal_nan=True)):
+            return float("inf")
+        a, b = a[fa], b[fb]
     d = np.linalg.norm(a - b)
-    if not np.isfinite(d):
-        return float("inf")
     return float(d / max(np.linalg.norm(a), np.linalg.norm(b), 1e-300))
 
 
 def num_rel(x, y):
     x, y = float(x), float(y)
     if x == y:
+        return 0.0
+    if np.isnan(x) and np.isnan(y):
         return 0.0
     if not (np.isfinite(x) and np.isfinite(y)):
         return float("inf")
@@ -333,8 +339,47 @@ ALGS_CP = ["cp_als", "cp_apr_mu", "cp_apr_pdnr", "cp_apr_pqnr"]
 ALGS_ALL = ALGS_CP + ["tucker_als", "hosvd", "gcp"]
 
 
+GUESS_PATTERNS = ["pos", "zero-first", "zero-mid", "zero-last", "zero-col", "tiny"]
+
+
+def apply_pattern(mats, pattern):
+    """Admissible starting guesses that are NOT generic: exact zeros in the first / a middle / the last factor
+    (never a whole row: in rows whose data slice is non-empty), a zero column, entries below CP-APR's kappatol
+    (1e-10).  `mats` is a list of factor matrices (entries may be None for tucker_als' unused first factor)."""
+    if mats is None or pattern in (None, "pos"):
+        return mats
+    idx = [k for k, m in enumerate(mats) if m is not None]
+    out = [None if m is None else np.array(m, dtype=float, copy=True) for m in mats]
+
+    def holes(A, val):
+        r, c = A.shape
+        A[0, 0] = val
+        if c > 1:
+            A[min(1, r - 1), c - 1] = val
+            if r > 2:
+                A[2, 0] = val
+        elif r > 2:
+            A[2, 0] = val
+    if pattern == "zero-first":
+        holes(out[idx[0]], 0.0)
+    elif pattern == "zero-mid":
+        holes(out[idx[len(idx) // 2]], 0.0)
+    elif pattern == "zero-last":
+        holes(out[idx[-1]], 0.0)
+    elif pattern == "zero-col":
+        A = out[idx[min(1, len(idx) - 1)]]
+        A[:, A.shape[1] - 1] = 0.0
+    elif pattern == "tiny":
+        holes(out[idx[0]], 1e-12)
+        holes(out[idx[-1]], 3e-11)
+    else:
+        raise KeyError(pattern)
+    return out
+
+
 def init_for(alg, case, init):
-    return tucker_init(case) if alg == "tucker_als" else (None if alg == "hosvd" else init)
+    g = tucker_init(case) if alg == "tucker_als" else (None if alg == "hosvd" else init)
+    return apply_pattern(g, case.get("guess"))
 
 
 # ----------------------------------------------------------------------------
@@ -440,7 +485,7 @@ class Print(Family):
 
     def gen(self, rng, tier):
         out = []
-        reps = 4 if tier == "quick" else 20
+        reps = 3 if tier == "quick" else 16
         for alg in ALGS_ALL:
             for k in range(reps):
                 c = base_case(rng, tier, alg)
@@ -450,6 +495,25 @@ class Print(Family):
                     if alg in ("cp_als", "tucker_als"):
                         c["stoptol"] = rng.choice([0, 1e-4])
                 out.append(c)
+        # ENUMERATED: every driver x every guess pattern (x every printing interval, in evaluate) on 3-way
+        # problems, rank >= 2, at least 3 outer iterations; CP drivers alternately on dense and sparse data
+        k = 0
+        for rep_no in range(1 if tier == "quick" else 4):
+            for alg in ALGS_ALL:
+                for pat in (GUESS_PATTERNS if alg != "hosvd" else ["pos"]):
+                    c = base_case(rng, tier, alg, n=3)
+                    c["guess"] = pat
+                    c["rank"] = max(c["rank"], 2)
+                    if alg == "tucker_als":
+                        c["ranks"] = [2, 2, 2]
+                    c["maxiters"] = max(c.get("maxiters", 3), 3 if alg != "gcp" else 8)
+                    if alg in ("cp_als", "tucker_als"):
+                        c["stoptol"] = 0
+                    if alg.startswith("cp_apr"):
+                        c["rate"] = 1.0  # non-empty data slices: the zero entries of the guess are "inadmissible zeros"
+                    k += 1
+                    c["rep"] = "sparse" if (alg in ALGS_CP and k % 2 == 1) else "dense"
+                    out.append(c)
         return out
 
     def evaluate(self, cases):
@@ -457,9 +521,9 @@ class Print(Family):
         for c in cases:
             alg = c["alg"]
             X, init = make_problem(c)
-            tags = [alg, c["rep"]]
-            levels = [0, 1, 3, 10] if alg == "hosvd" else PRINTS
-            inner = [0, 0, 1, 2] if alg.startswith("cp_apr") else [0, 0, 0, 0]  # cp_apr's second verbosity knob
+            tags = [alg, c["rep"], "guess=" + c.get("guess", "generic")]
+            levels = [0, 1, 2, 3, 7, 10] if alg == "hosvd" else PRINTS
+            inner = [0, 0, 1, 2, 0, 0] if alg.startswith("cp_apr") else [0] * 6  # cp_apr's second verbosity knob
             runs = [run_alg(alg, as_data(X, c["rep"]), c, init=init_for(alg, c, init), printitn=p, inner=q)
                     for p, q in zip(levels, inner)]
             impl = {f"p{p}": brief(r) for p, r in zip(levels, runs)}
